@@ -261,7 +261,7 @@ pub fn prop() -> DiceProp {
         nightly: false,
         check_only: false,
         ndice: 210,
-        quick: (1500, 1),
+        quick: (6000, 1),
         thorough: (5000, 8),
         build,
         fixed,
